@@ -36,7 +36,7 @@ def phase_of(row, sock):
     if sock is None:
         return 0
     if row["kind"] == "cause":
-        if row["phase"] == "middleware":
+        if row["phase"] in ("middleware", "slowclose"):
             last = ["/", "/b"][row["nsps"] - 1]
             return 1 if sock["nsp"] == last else 2
         return 2
